@@ -2285,15 +2285,23 @@ MANIFEST = {
                   'prepare_program_for_advanced_sequence_mode, the Tabor compilation end to end and make_compatible '
                   'commute with ONE update when no VolatileModificationWarning is raised and the second run takes the '
                   'same decisions (and shares the same sequencer tables) - these are hypotheses about the second run; '
-                  'input-level conditions are proved for SINGLE mode (unconditional), skip-only compilations, tables that '
-                  'are long enough, and fixed capacity in the splitting loop.  TaborProgram.update_volatile_parameters is '
+                  'input-level conditions are proved for SINGLE mode (unconditional, and for EVERY sequence of updates: '
+                  'C15_tabor_single_mode_sequence), skip-only compilations, tables that are long enough, and fixed '
+                  'capacity in the splitting loop.  Recorded positions of compiled tables (round 6): the parser records '
+                  'exactly the volatile counts of the sequence tables it is handed (C15_tabor_positions, '
+                  'C15_tabor_parser_marks, no hypothesis); in SINGLE mode, per played waveform, "a count is recorded as '
+                  'changeable" is exactly the mark of the scope-free specification (C15_tabor_single_marks, '
+                  'unconditional); in advanced mode only the parser half is proved '
+                  '(C15_tabor_advanced_positions_partial).  TaborProgram.update_volatile_parameters is '
                   'proved at the level of table cells (new values written, nothing else changes, exactly the changed '
                   'entries reported) under the guard that positions sharing a cell agree on the new value (refuted '
                   'without it: known finding shared table).  Counts evaluated in binary64 (ModelF.v): for every value a '
                   'fresh instantiation accepts the update path yields the same count; error analysis for quotients / '
-                  'products K < 2^20.  NOT proved, tested only (see notes, clause map): that the volatile marks / '
-                  'recorded positions of compiled tables are exactly the dependent counts, that the tables play the '
-                  'denotation of the template, sequences of updates on Tabor programs, ForLoopPT.',
+                  'products K < 2^20.  NOT proved, tested only (see notes, clause map): that in ADVANCED sequence mode '
+                  'the preparation (flatten_and_balance, prepare_program_for_advanced_sequence_mode) hands the parser '
+                  'tables whose volatile counts are exactly the dependent counts of the specification, that the tables '
+                  'play the denotation of the template, sequences of updates on Tabor programs in advanced mode, '
+                  'ForLoopPT.',
     'level_note': 'Trusted: Coq kernel, sympy (expression evaluation / structural equality / printed operation order), '
                   'IEEE-754 arithmetic of CPython and numpy, harness observation of Loop trees and Tabor tables.  The '
                   'decision lists of prepare / tabor_compile / make_compatible are ghost outputs of the model.  '
